@@ -46,13 +46,16 @@ Definition tt_name (t : ttype) : string :=
   | AnyLiteral => "AnyLiteral"
   end%string.
 
-(* the `operators` map: rune -> operator token *)
-Definition op_of (c : N) : option ttype :=
-  match c with
-  | 61 => Some ASSIGN | 123 => Some LBRACE | 125 => Some RBRACE | 91 => Some LBRACK | 93 => Some RBRACK
-  | 46 => Some DOT | 44 => Some COMMA | 58 => Some COLON | 43 => Some PLUS | 33 => Some BANG | 63 => Some QUESTION
-  | _ => None
-  end%N.
+(* the `operators` map: rune -> operator token (sorted by rune) *)
+Definition model_operators : list (N * ttype) :=
+  [(33, BANG); (43, PLUS); (44, COMMA); (46, DOT); (58, COLON); (61, ASSIGN); (63, QUESTION);
+   (91, LBRACK); (93, RBRACK); (123, LBRACE); (125, RBRACE)]%N.
+Fixpoint assoc_N {A} (l : list (N * A)) (c : N) : option A :=
+  match l with
+  | [] => None
+  | (k, v) :: r => if N.eqb k c then Some v else assoc_N r c
+  end.
+Definition op_of (c : N) : option ttype := assoc_N model_operators c.
 
 Definition is_literal (t : ttype) : bool :=
   match t with
